@@ -35,8 +35,10 @@ class MemFace(Face):
     async def run(self):
         await self._stop
 
+    local = True
+
     def isLocalFace(self):
-        return True
+        return self.local
 
     def take(self):
         out, self.sent = self.sent, []
